@@ -64,6 +64,7 @@ type ReadCase struct {
 	Chunks    []int   `json:"chunks"` // what each Read returned
 	Total     int     `json:"total"`
 	Ended     string  `json:"ended"` // eof | error | timeout
+	Later     []string `json:"later"` // Reads issued after the first end: eof | error | data | block
 	ContentOK bool    `json:"content_ok"`
 	TooLong   bool    `json:"too_long"` // a Read returned more than its buffer
 	ZeroNil   int     `json:"zero_nil"` // Reads that returned (0, nil)
@@ -106,6 +107,8 @@ type E2ECase struct {
 	Closer   string `json:"closer"`    // client | app
 	EndKind  string `json:"end_kind"`  // what the other side's read returned: eof | error | timeout
 	EndMs    int    `json:"end_ms"`
+	LaterReads []string `json:"later_reads"` // Reads after that first end: eof | error | data | timeout
+	LateWrite  string   `json:"late_write"`  // a Write after the peer's close: ok | error | timeout
 	SetupErr string `json:"setup_err,omitempty"`
 	Splits   string `json:"splits"`
 	Skipped  bool   `json:"skipped,omitempty"` // not run: this mode already hit three observation bounds
@@ -284,15 +287,28 @@ func genScript(r *hx.Rng) []Frame {
 		s = append(s, Frame{T: "lost"})
 	default:
 		s = append(s, Frame{T: "text", Len: 3})
-		if r.Intn(3) == 0 { // data after the end marker must not be read as part of the stream
+		switch c := r.Intn(20); {
+		case c < 5: // data after the end marker must not be read as part of the stream
 			s = append(s, Frame{T: "bin", Len: 10}, Frame{T: "lost"})
+		case c < 6: // the peer half-closes and keeps the websocket open and silent
+			s = append(s, Frame{T: "hold"})
+		default: // what sideConn.Close does: the end marker, then the connection is closed
+			s = append(s, Frame{T: "lost"})
 		}
 	}
 	return s
 }
 
-func runRead(r *hx.Rng) *ReadCase {
-	c := &ReadCase{Script: genScript(r), Chunks: []int{}}
+// holdScript: data, the end marker, and the websocket left open (corpus).
+func holdScript() []Frame {
+	return []Frame{{T: "bin", Len: 4097}, {T: "text", Len: 3}, {T: "hold"}}
+}
+
+func runRead(r *hx.Rng, script []Frame) *ReadCase {
+	c := &ReadCase{Script: script, Chunks: []int{}, Later: []string{}}
+	if script == nil {
+		c.Script = genScript(r)
+	}
 	for i, n := 0, 1+r.Intn(4); i < n; i++ {
 		c.Bufs = append(c.Bufs, []int{1, 7, 512, 4095, 4096, 4097, 32768, 65536, 100000}[r.Intn(9)])
 	}
@@ -314,10 +330,21 @@ func runRead(r *hx.Rng) *ReadCase {
 			want = append(want, pattern(seed+uint64(i), f.Len)...)
 		}
 	}
+	readerDone := make(chan struct{})
+	defer close(readerDone)
+	holds := false
+	for _, f := range c.Script {
+		if f.T == "hold" {
+			holds = true
+		}
+	}
 	go func() {
 		p.server.SetWriteDeadline(time.Now().Add(bound))
 		for i, f := range c.Script {
 			switch f.T {
+			case "hold":
+				<-readerDone
+				return
 			case "bin":
 				p.server.WriteMessage(websocket.BinaryMessage, pattern(seed+uint64(i), f.Len))
 			case "frag":
@@ -387,6 +414,31 @@ func runRead(r *hx.Rng) *ReadCase {
 	}
 	c.Total = len(got)
 	c.ContentOK = bytes.Equal(got, want)
+	// Reads after the first end.  Where the script leaves the websocket open
+	// and silent the model predicts that the Read blocks: there the wait is
+	// short and a timeout is the predicted observation.
+	if c.Ended == "eof" || c.Ended == "error" {
+		wait := bound
+		if holds {
+			wait = 700 * time.Millisecond
+		}
+		for i := 0; i < 2; i++ {
+			sc.SetReadDeadline(time.Now().Add(wait))
+			buf := make([]byte, 4096)
+			n, err := sc.Read(buf)
+			kind := classify(err)
+			if err == nil && n > 0 {
+				kind = "data"
+			}
+			if kind == "timeout" {
+				kind = "block"
+			}
+			c.Later = append(c.Later, kind)
+			if kind == "block" {
+				break
+			}
+		}
+	}
 	if len(c.Chunks) > 64 {
 		c.Chunks = c.Chunks[:64]
 	}
@@ -479,7 +531,38 @@ type appPlan struct {
 	writes   int
 	endKind  string
 	endMs    int
+	later    []string
+	lateWrite string
 	done     chan struct{}
+}
+
+// afterEnd issues two more Reads and one Write on a connection whose Read
+// has just reported the end of the stream; each must return within the bound.
+func afterEnd(conn net.Conn) (later []string, write string) {
+	later = []string{}
+	for i := 0; i < 2; i++ {
+		conn.SetReadDeadline(time.Now().Add(bound))
+		buf := make([]byte, 4096)
+		n, err := conn.Read(buf)
+		kind := classify(err)
+		if err == nil {
+			kind = "data"
+			if n == 0 {
+				kind = "zero"
+			}
+		}
+		later = append(later, kind)
+		if kind == "timeout" {
+			return later, "skipped"
+		}
+	}
+	conn.SetWriteDeadline(time.Now().Add(bound))
+	_, err := conn.Write([]byte{0x55})
+	write = classify(err)
+	if err == nil {
+		write = "ok"
+	}
+	return later, write
 }
 
 type modeWorld struct {
@@ -570,6 +653,9 @@ func newModeWorld(mode string) (*modeWorld, error) {
 			}
 		}
 		p.endMs = int(time.Since(t0) / time.Millisecond)
+		if p.endKind != "timeout" {
+			p.later, p.lateWrite = afterEnd(conn)
+		}
 		conn.Close()
 	}
 	lookup := func(domain string) (*sniproxy.Dest, error) {
@@ -707,6 +793,7 @@ func runE2E(r *hx.Rng, mw *modeWorld, mode string, c2a, a2c int) *E2ECase {
 		}
 		if c.EndKind == "" {
 			c.EndKind, c.EndMs = p.endKind, p.endMs
+			c.LaterReads, c.LateWrite = p.later, p.lateWrite
 		}
 	} else {
 		// the application closes once it has everything: this side's Read must end
@@ -722,10 +809,16 @@ func runE2E(r *hx.Rng, mw *modeWorld, mode string, c2a, a2c int) *E2ECase {
 			}
 		}
 		c.EndMs = int(time.Since(t0) / time.Millisecond)
+		if c.EndKind != "timeout" {
+			c.LaterReads, c.LateWrite = afterEnd(conn)
+		}
 		select {
 		case <-p.done:
 		case <-time.After(bound):
 		}
+	}
+	if c.LaterReads == nil {
+		c.LaterReads = []string{}
 	}
 	c.A2C = mkDir(down, got, p.writes, creads, aerr)
 	c.C2A = mkDir(up, p.got, cwrites, p.reads, p.rerr)
@@ -758,6 +851,7 @@ func plan(seed uint64, n, e2eN int, big bool) []spec {
 		ss = append(ss, spec{stream: "e2e", seed: r.U64(), mode: e2e.Modes[i%3],
 			a: payloadSizes[r.Intn(len(payloadSizes))], b: payloadSizes[r.Intn(len(payloadSizes))]})
 	}
+	ss = append(ss, spec{stream: "read", seed: r.U64(), a: 1}) // corpus: end marker, websocket left open
 	ss = append(ss, spec{stream: "write", seed: r.U64(), big: true})
 	ss = append(ss, spec{stream: "write", seed: r.U64(), a: 131075})
 	for len(ss) < n {
@@ -804,7 +898,11 @@ func runSpec(i int, s spec) (c Case) {
 			c.Read = &ReadCase{Skipped: true}
 			return c
 		}
-		c.Read = runRead(r)
+		var script []Frame
+		if s.a == 1 {
+			script = holdScript()
+		}
+		c.Read = runRead(r, script)
 		if c.Read.Ended == "timeout" {
 			hungStream["read"]++
 		}
@@ -829,7 +927,14 @@ func runSpec(i int, s spec) (c Case) {
 			return c
 		}
 		c.E2E = runE2E(r, mw, s.mode, s.a, s.b)
-		if c.E2E.EndKind == "timeout" || c.E2E.SetupErr != "" || c.E2E.C2A.Err == "timeout" || c.E2E.A2C.Err == "timeout" {
+		hung := c.E2E.EndKind == "timeout" || c.E2E.SetupErr != "" || c.E2E.C2A.Err == "timeout" ||
+			c.E2E.A2C.Err == "timeout" || c.E2E.LateWrite == "timeout"
+		for _, k := range c.E2E.LaterReads {
+			if k == "timeout" {
+				hung = true
+			}
+		}
+		if hung {
 			mw.hung++
 		}
 	}
